@@ -41,6 +41,8 @@ PhaseClauses(q) ==
   \cup (IF ~q.ratenonneg THEN {"C14:rate>=0"} ELSE {})
   \cup (IF \E i \in 1..Len(q.gsign) : (q.gsign[i][1] = "gt" /\ q.gsign[i][2] < 0) \/ (q.gsign[i][1] = "lt" /\ q.gsign[i][2] > 0)
           THEN {"C12:growth-sign-vs-Rcrit"} ELSE {})
+  \cup (IF \E i \in 1..Len(q.gsignw) : (q.gsignw[i][1] = "gt" /\ q.gsignw[i][2] < 0) \/ (q.gsignw[i][1] = "lt" /\ q.gsignw[i][2] > 0)
+          THEN {"C12:growth-sign-vs-Rcrit(10%-band)"} ELSE {})
 
 RowClauses(e, nExpected) ==
        (IF e.n # nExpected \/ ~AllEq(e.lens, nExpected + 1) THEN {"C03:histories-aligned"} ELSE {})
